@@ -113,3 +113,12 @@ chk('C09', 'exploration',
     'every corpus file that has a dynamic section.',
     'Section link and DT_STRTAB designate the same table; valid UTF-8 strings; symbol count judged only when a hash table exists.',
     'ground-truth generator + cross-view equivalence (metamorphic) oracle + stream poisoning', 'DESIGN.md section 4 C09')
+chk('C19', 'fault_enumeration',
+    'Fault enumeration over ~60 seeds (repository binaries under 12 KiB + generated images with every section kind): random byte strings, '
+    'every truncation length / table boundary, every single-byte substitution of the 64-byte header region with four values, single-byte '
+    'substitutions over whole seeds (every byte in thorough), all pairs (triples in thorough) of Ehdr count/size/offset/index fields x '
+    '{0,1,max}, random multi-field corruption. The exception classifier requires ELFError from the constructor; the enumeration battery '
+    'runs under a logical step meter (function entries + taken jumps + traced stream operations) that raises inside the call, and a '
+    'tracemalloc peak bound on every 4th case.',
+    'Logical-step and tracemalloc budgets calibrated on the seeds; BytesIO inputs; any exception may end a battery step.',
+    'fault injection (byte/field/truncation enumeration) + exception classifier + logical step meter + allocation meter', 'DESIGN.md section 4 C19')
